@@ -340,7 +340,7 @@ static void putHandles()
   {
     String::Data* d = S[i]->data;
     if(d == &String::emptyData) printf("n");
-    else if(d == &S[i]->_data) { printf("i0."); hxPutHex(d->str, d->len); }
+    else if(d == &S[i]->_data) { printf(d->str[d->len] ? "i1." : "i0."); hxPutHex(d->str, d->len); }   // i1 = unterminated memory
     else putBlockTok(d, 0);
     printf(" ");
   }
@@ -594,6 +594,9 @@ static const struct { const char* name; const char* args; } OPTAB[] = {
   {"pnew", "in"}, {"pcopy", "ii"}, {"passign", "ii"}, {"pclear", "i"}, {"pswap", "ii"}, {"praw", "ii"}, {"pctor", "ii"},
   {"plink", "ii"}, {"pnext", "i"}, {"pnextof", "ii"},
   {"vpushv", "ii"}, {"vgetv", "iin"}, {"xaddc", "ii"}, {"xgetc", "iin"}, {"apushv", "ii"}, {"agetv", "iin"},
+  {"slitc", "in"}, {"scap", "in"}, {"slitu", "ih"}, {"sconst", "i"}, {"sconstm", "i"}, {"sdetach", "i"}, {"sapps", "ii"},
+  {"spluss", "ii"}, {"sappc", "in"}, {"splusc", "in"}, {"spreps", "ii"}, {"supper", "i"},
+  {"vctors", "ih"}, {"vctorl", "in"}, {"vctora", "in"}, {"vctorm", "inn"}, {"xctors", "ih"}, {"xctore", "ih"},
   {0, 0}};
 
 static bool parseOp(char** tok, int ntok, OpRec& o)
@@ -674,6 +677,29 @@ static bool execOp(const OpRec& o)
     else if(!strcmp(n, "slower")) S[d]->toLowerCase();
     else if(!strcmp(n, "schar")) { char* p = *S[d]; (void)p; }
     else if(!strcmp(n, "sprintf")) S[d]->printf("%d", s);
+    else if(!strcmp(n, "slitc"))
+    {
+      // String(const char(&)[N]) on the literals of the model's table `lits`
+      if(s > 2) ok = false;
+      else
+      {
+        S[d]->~String();
+        if(s == 0) new(stS[d]) String("");
+        else if(s == 1) new(stS[d]) String("ab");
+        else new(stS[d]) String("abcd");
+      }
+    }
+    else if(!strcmp(n, "scap")) { S[d]->~String(); new(stS[d]) String((usize)s); }
+    else if(!strcmp(n, "slitu")) { memcpy(litbuf[d], bytes, o.len); litbuf[d][o.len] = 'Z'; S[d]->attach(litbuf[d], o.len); }   // unterminated
+    else if(!strcmp(n, "sconst")) { const char* p = *(const String*)S[d]; (void)p; }      // operator const char*() const
+    else if(!strcmp(n, "sconstm")) { const char* p = *S[d]; (void)p; }                    // operator const char*()
+    else if(!strcmp(n, "sdetach")) S[d]->detach();
+    else if(!strcmp(n, "sapps")) S[d]->append(*S[s]);
+    else if(!strcmp(n, "spluss")) *S[d] += *S[s];
+    else if(!strcmp(n, "sappc")) S[d]->append((char)s);
+    else if(!strcmp(n, "splusc")) *S[d] += (char)s;
+    else if(!strcmp(n, "spreps")) S[d]->prepend(*S[s]);
+    else if(!strcmp(n, "supper")) S[d]->toUpperCase();
     break;
   case 'a':     // apushv / agetv: Variant calls on Array payloads
   case 'v':
@@ -691,6 +717,17 @@ static bool execOp(const OpRec& o)
     else if(!strcmp(n, "vseta")) { Array<Variant> a; a.append(Variant((int)s)); *V[d] = a; }
     else if(!strcmp(n, "vputm")) { char k = (char)o.b; V[d]->toMap().append(String(&k, 1), Variant((int)o.c)); }
     else if(!strcmp(n, "vsetm")) { char k = (char)o.b; HashMap<String, Variant> m; m.append(String(&k, 1), Variant((int)o.c)); *V[d] = m; }
+    else if(!strcmp(n, "vctors")) { String t(bytes, o.len); V[d]->~Variant(); new(stV[d]) Variant(t); }
+    else if(!strcmp(n, "vctorl")) { List<Variant> l; l.append(Variant((int)s)); V[d]->~Variant(); new(stV[d]) Variant(l); }
+    else if(!strcmp(n, "vctora")) { Array<Variant> a; a.append(Variant((int)s)); V[d]->~Variant(); new(stV[d]) Variant(a); }
+    else if(!strcmp(n, "vctorm"))
+    {
+      char kk = (char)o.b;
+      HashMap<String, Variant> m;
+      m.append(String(&kk, 1), Variant((int)o.c));
+      V[d]->~Variant();
+      new(stV[d]) Variant(m);
+    }
     else if(!strcmp(n, "vpushv"))
     {
       // a list payload holding (possibly shared) Variants; the model's slot layout has FAMK embedded slots per payload
@@ -730,6 +767,8 @@ static bool execOp(const OpRec& o)
     else if(!strcmp(n, "xclear")) X[d]->clear();
     else if(!strcmp(n, "xsets")) *X[d] = String(bytes, o.len);
     else if(!strcmp(n, "xelem")) X[d]->toElement().type = String(bytes, o.len);
+    else if(!strcmp(n, "xctors")) { String t(bytes, o.len); X[d]->~Variant(); new(stX[d]) Xml::Variant(t); }
+    else if(!strcmp(n, "xctore")) { Xml::Element e; e.type = String(bytes, o.len); X[d]->~Variant(); new(stX[d]) Xml::Variant(e); }
     else if(!strcmp(n, "xaddc"))
     {
       usize len = X[d]->isElement() ? ((const Xml::Variant*)X[d])->toElement().content.size() : 0;
